@@ -237,8 +237,17 @@ func contractMentions(fc *FuncContract, p string) bool {
 
 func (d *Driver) rtJobs(loader *Loader) ([]*job, error) {
 	out := filepath.Join(d.Work, "rt")
-	cmd := exec.Command(filepath.Join(d.Verif, "bin/inst"), out)
-	cmd.Env = append(os.Environ(), "GOFLAGS=-mod=mod", "GOPROXY=off", "GOSUMDB=off", "GOTOOLCHAIN=local")
+	// the harness links the REAL builder package of /repo's working tree: rebuild it on every run
+	env := append(os.Environ(), "GOFLAGS=-mod=mod", "GOPROXY=off", "GOSUMDB=off", "GOTOOLCHAIN=local", "CGO_ENABLED=0")
+	instBin := filepath.Join(d.Work, "inst")
+	bc := exec.Command("go1.26", "build", "-o", instBin, ".")
+	bc.Dir = filepath.Join(d.Verif, "inst")
+	bc.Env = env
+	if b, err := bc.CombinedOutput(); err != nil {
+		return nil, fmt.Errorf("building the instantiation harness against /repo failed (does /repo compile?): %v\n%s", err, b)
+	}
+	cmd := exec.Command(instBin, out)
+	cmd.Env = env
 	if b, err := cmd.CombinedOutput(); err != nil {
 		return nil, fmt.Errorf("instantiation harness failed: %v\n%s", err, b)
 	}
